@@ -10,7 +10,7 @@ CONSTANT Sub     \* set of alphabet indices (0-based, as logged by the harness)
 
 \* must equal c01::env().alphabet of the harness (checked by the judge)
 HarnessAlpha == << <<0,0,1,0,0>>, <<0,1,1,1,0>>, <<0,0,1,2,0>>, <<0,2,1,0,0>>, <<0,9,2,0,0>>, <<0,8,2,1,0>>,
-                   <<1,0,0,1,1>>, <<1,0,0,2,2>>, <<1,0,0,0,3>>, <<1,0,0,1,11>>, <<1,0,0,2,12>>, <<0,3,1,3,0>>, <<0,0,1,1,0>> >>
+                   <<1,0,0,1,1>>, <<1,0,0,2,2>>, <<1,0,0,0,3>>, <<1,0,0,1,11>>, <<1,0,0,2,12>>, <<0,3,1,3,0>>, <<0,0,1,1,0>>, <<1,0,0,0,4>>, <<1,0,0,0,5>> >>
 
 Idx == [Rows -> [Cols -> Sub]]
 Good == { s \in Idx : LET surf == [r \in Rows |-> [c \in Cols |-> CellOf(HarnessAlpha[s[r][c] + 1])]]
